@@ -40,6 +40,9 @@ func init() {
 			{ID: "C14.19", Desc: "not-exist errors are recognised through errors.Is with the error first (wrapped and joined errors of the backends)", Run: func(c *Ctx) { ruleErrorsIsOrder(c, "C14.19") }, MinSites: 1},
 			{ID: "C14.20", Desc: "no key's file name can be a temporary file's name", Run: func(c *Ctx) { ruleTempPrefixOutsideAlphabet(c, "C14.20") }, MinSites: 1},
 			{ID: "C14.21", Desc: "keys of any length can be listed: the listing goes through the root handle like Set, Get and Delete", Run: func(c *Ctx) { ruleListingThroughRoot(c, "C14.21") }, MinSites: 1},
+			{ID: "C14.22", Desc: "the walk callback of the listing returns fs.SkipDir for directories at most", Run: func(c *Ctx) { ruleWalkSkipsFilesWithNil(c, "C14.22") }, MinSites: 1},
+			{ID: "C14.23", Desc: "values of any length come back from the encrypted backend (minimum ciphertext length from the AEAD)", Run: func(c *Ctx) { ruleCiphertextMinLength(c, "C14.23") }, MinSites: 1},
+			{ID: "C14.24", Desc: "the repository's error sentinels are matched with errors.Is", Run: func(c *Ctx) { ruleSentinelsByErrorsIs(c, "C14.24") }, MinSites: 1},
 		},
 	})
 }
